@@ -1,0 +1,12 @@
+//go:build verif
+
+// Contracts for the deductive verification in /verif (govc). This file contains
+// comments only; it is compiled only with -tags verif and declares nothing.
+
+package x509
+
+// Hex (used by verifier.(*GraphEdgeSet).addOrPanic for its panic message): no panic, no
+// effect on the heap; the hex string itself is not specified.
+//@ func (CertificateFingerprint).Hex
+//@   modifies nothing
+//@   terminates
